@@ -1,0 +1,108 @@
+//go:build verif
+
+// Package verifbridge exposes, to an external verification harness, the tracer
+// installation point and the free-page allocator of internal/freelist behind
+// plain Go types. It only exists when built with the `verif` tag.
+package verifbridge
+
+import (
+	"fmt"
+	"unsafe"
+
+	"go.etcd.io/bbolt/internal/common"
+	fl "go.etcd.io/bbolt/internal/freelist"
+)
+
+// Tracer is the interface the harness implements.
+type Tracer = common.VerifTracer
+
+// SetTracer installs the tracer (nil removes it).
+func SetTracer(t Tracer) { common.SetVerifTracer(t) }
+
+// Freelist wraps one allocator backend.
+type Freelist struct {
+	f fl.Interface
+}
+
+// NewFreelist creates an allocator: kind is "array" or "hashmap".
+func NewFreelist(kind string) *Freelist {
+	if kind == "hashmap" {
+		return &Freelist{f: fl.NewHashMapFreelist()}
+	}
+	return &Freelist{f: fl.NewArrayFreelist()}
+}
+
+func toPgids(ids []uint64) common.Pgids {
+	r := make(common.Pgids, len(ids))
+	for i, v := range ids {
+		r[i] = common.Pgid(v)
+	}
+	return r
+}
+
+// Call runs fn and converts a panic into an error.
+func Call(fn func()) (err error) {
+	defer func() {
+		if p := recover(); p != nil {
+			err = fmt.Errorf("panic: %v", p)
+		}
+	}()
+	fn()
+	return nil
+}
+
+func (w *Freelist) Init(ids []uint64) { w.f.Init(toPgids(ids)) }
+func (w *Freelist) Allocate(txid uint64, n int) uint64 {
+	return uint64(w.f.Allocate(common.Txid(txid), n))
+}
+func (w *Freelist) Count() int                  { return w.f.Count() }
+func (w *Freelist) FreeCount() int              { return w.f.FreeCount() }
+func (w *Freelist) PendingCount() int           { return w.f.PendingCount() }
+func (w *Freelist) AddReadonlyTXID(t uint64)    { w.f.AddReadonlyTXID(common.Txid(t)) }
+func (w *Freelist) RemoveReadonlyTXID(t uint64) { w.f.RemoveReadonlyTXID(common.Txid(t)) }
+func (w *Freelist) ReleasePendingPages()        { w.f.ReleasePendingPages() }
+func (w *Freelist) Freed(id uint64) bool        { return w.f.Freed(common.Pgid(id)) }
+func (w *Freelist) Rollback(txid uint64)        { w.f.Rollback(common.Txid(txid)) }
+func (w *Freelist) EstimatedWritePageSize() int { return w.f.EstimatedWritePageSize() }
+func (w *Freelist) NoSyncReload(ids []uint64)   { w.f.NoSyncReload(toPgids(ids)) }
+
+// Free frees the page run starting at id with the given overflow count.
+func (w *Freelist) Free(txid uint64, id uint64, overflow uint32) {
+	w.f.Free(common.Txid(txid), common.NewPage(common.Pgid(id), 0, 0, overflow))
+}
+
+// Copyall returns free and pending ids in one sorted list.
+func (w *Freelist) Copyall() []uint64 {
+	dst := make([]common.Pgid, w.f.Count())
+	w.f.Copyall(dst)
+	r := make([]uint64, len(dst))
+	for i, v := range dst {
+		r[i] = uint64(v)
+	}
+	return r
+}
+
+// Snapshot returns free ids, pending records (freeing tx, page, allocating tx) and readers.
+func (w *Freelist) Snapshot() (free []uint64, pending [][3]uint64, readers []uint64) {
+	return fl.VerifSnapshot(w.f)
+}
+
+// WriteImage serialises the list into a fresh page image (a multiple of pageSize bytes).
+func (w *Freelist) WriteImage(pageSize int) []byte {
+	n := w.f.EstimatedWritePageSize()/pageSize + 1
+	buf := make([]byte, n*pageSize)
+	p := (*common.Page)(unsafe.Pointer(&buf[0]))
+	p.SetOverflow(uint32(n - 1))
+	w.f.Write(p)
+	return buf
+}
+
+// ReadImage initialises the list from a page image.
+func (w *Freelist) ReadImage(img []byte) {
+	w.f.Read((*common.Page)(unsafe.Pointer(&img[0])))
+}
+
+// ReloadImage reloads the list from a page image, filtering pending ids.
+func (w *Freelist) ReloadImage(img []byte) {
+	w.f.Reload((*common.Page)(unsafe.Pointer(&img[0])))
+}
